@@ -16,6 +16,7 @@ class Pattern(typ.NamedTuple):
 RE_PATTERN_ESCAPES = [
     ("\u005c", "\u005c\u005c"),
     ("-"     , "\u005c-"),
+    ("|"     , "\u005c|"),
     ("."     , "\u005c."),
     ("+"     , "\u005c+"),
     ("*"     , "\u005c*"),
